@@ -368,11 +368,13 @@ def check_entry_text(ctx):
 
         def parse(self, tokens):
             return 'AST'
-    contents = VALUE_PROBES + [unicode_probe().replace("'", '').replace('`', '').replace('"', '').replace('\n', ' '), '10\xa0000\xa0EUR', 'a\u2003b', 'tab\tin', 'two  spaces', 'MiXed Case', 'x\u200by', 'a\r\nb', '\x0c', 'a;;b', ' ; ']
+    contents = VALUE_PROBES + [unicode_probe().replace("'", '').replace('`', '').replace('"', '').replace('\n', ' '), '10\xa0000\xa0EUR', 'a\u2003b', 'tab\tin', 'two  spaces', 'MiXed Case', 'x\u200by', 'a\r\nb', '\x0c', 'a;;b', ' ; ',
+                               # statement-end look-alikes inside a literal / name / comment: a semicolon followed by what reads as a comment up to the end of the text
+                               '%; -- %', 'BEGIN; /* start', 'x;--', 'a; /* b */ c', ';#', 'end; ']
     n = 0
     for c in contents:
         for stmt in (f"select '{c}' from t", f"select `{c}` from t", f'select "{c}" as "{c}"', f"select 1 -- {c}\n from t"):
-            for tail in ('', ';', ' ;\n', '\n\n'):
+            for tail in ('', ';', ' ;\n', '\n\n', ' /* nightly */'):
                 text = stmt + tail
                 for d in DIALECTS:
                     del seen[:]
